@@ -647,7 +647,22 @@ func initExterns() {
 		}
 		externTable["(*"+antlrPkg+".BaseToken)."+name] = externTable["(*"+antlrPkg+".CommonToken)."+name]
 	}
-	tokM("GetLine", SInt)
+	// lines are 1-based (ANTLR: the lexer starts at line 1)
+	tokLine := func(e *Engine, s *State, tok *Term) *Term {
+		l := App("tok.GetLine", SInt, tok)
+		s.assume(Le(Int(1), l))
+		s.assume(Lt(l, Int(maxLen)))
+		return l
+	}
+	invokeTable["("+antlrPkg+".Token).GetLine"] = func(e *Engine, s *State, x ssa.CallInstruction, recv Value, args []Value) {
+		e.bindResult(s, x, Value{tokLine(e, s, recv[1])})
+	}
+	for _, recvT := range []string{"CommonToken", "BaseToken"} {
+		externTable["(*"+antlrPkg+"."+recvT+").GetLine"] = ret(func(e *Engine, s *State, x ssa.CallInstruction, args []Value) Value {
+			e.safe(s, x, "recv", Ne(args[0][0], Zero))
+			return Value{tokLine(e, s, args[0][0])}
+		})
+	}
 	// token indices are positions in the stream's token list (-1 before the token is buffered)
 	tokIdx := func(e *Engine, s *State, tok *Term) *Term {
 		idx := App("tok.GetTokenIndex", SInt, tok)
